@@ -279,14 +279,11 @@ def r_flow_parse(ctx) -> RuleResult:
         res.inst(m.fq, f"self.{attr_field} in `{short(p, 60)}`", "ok" if ok else "fail", detail=why)
         if not ok:
             res.fail(Finding("R-FLOW-PARSE", m.module.rel, m.qualname, norm(p), f"the order / splitting of attribute blocks reaches the graph: {why}", line=n.lineno))
-    # duplicate attribute detection raises
-    adders = [m for m in lis.methods.values() if any(isinstance(x, ast.Attribute) and x.attr == "setdefault" for x in ast.walk(m.node))]
-    okdup = any(isinstance(y, ast.If) and isinstance(y.test, ast.Compare) and isinstance(y.test.ops[0], ast.In) and any(isinstance(z, ast.Raise) for z in y.body)
-                for m in adders for y in own_walk(m.node))
-    res.inst(lis.fq, "setting an attribute twice on one atom raises", "ok" if okdup else "fail")
-    if not okdup:
-        m = adders[0] if adders else init
-        res.fail(Finding("R-FLOW-PARSE", m.module.rel, m.qualname, "duplicate attribute check", "a repeated attribute silently overrides the earlier one: the result depends on block order", line=m.node.lineno))
+    dup = r_dupattr(ctx)
+    for i in dup.instances:
+        res.instances.append(i)
+    for f in dup.findings:
+        res.fail(Finding("R-FLOW-PARSE", f.file, f.function, f.construct, f.message, line=f.line))
     # ---- graph construction: undirected simple graph, edges from dictionary keys
     gfm = repo.func("tucan.graph_utils.graph_from_molecule")
     ctors = [cs for cs in sites(ctx, gfm) if cs.kind == "ext" and cs.target.startswith("networkx.") and cs.target.split(".")[-1] in ("Graph", "DiGraph", "MultiGraph", "MultiDiGraph", "OrderedGraph")]
@@ -296,4 +293,42 @@ def r_flow_parse(ctx) -> RuleResult:
         n = ctors[0].node if ctors else gfm.node
         res.fail(Finding("R-FLOW-PARSE", gfm.module.rel, gfm.qualname, norm(n), "molecule graphs are not built as an undirected simple nx.Graph: repeated or reversed tuples would not collapse", line=n.lineno))
     res.trusted = ["networkx.Graph is an undirected simple graph: add_edges_from collapses duplicates and orientation"]
+    return res
+
+
+@rule("R-DUPATTR")
+def r_dupattr(ctx) -> RuleResult:
+    res = RuleResult("R-DUPATTR", "setting an attribute a second time on the same atom raises the parser's exception whatever the value")
+    repo = ctx.repo
+    par = repo.module("tucan.parser.parser")
+    lis = None
+    for ci in par.classes.values():
+        if any(b.endswith("tucanListener") for b in repo.base_names(ci)):
+            lis = ci
+    if lis is None:
+        raise AnalysisError("listener implementation vanished")
+    adders = [m for m in lis.methods.values() if any(isinstance(x, ast.Attribute) and x.attr in ("setdefault",) for x in ast.walk(m.node))
+              or any(isinstance(x, ast.Subscript) and isinstance(x.ctx, ast.Store) and "attr" in norm(x.value) for x in ast.walk(m.node))]
+    adders = [m for m in adders if not m.name.startswith(("enter", "exit")) and m.name != "to_graph"] or adders
+    if not adders:
+        raise AnalysisError("R-DUPATTR: no method stores node attributes")
+    for m in adders:
+        ps = params_of(m.node)
+        value_params = set(ps[3:]) if len(ps) > 3 else set()
+        good = None
+        for y in own_walk(m.node):
+            if isinstance(y, ast.If) and any(isinstance(z, ast.Raise) for z in y.body):
+                t = y.test
+                names = {n.id for n in ast.walk(t) if isinstance(n, ast.Name)}
+                membership = isinstance(t, ast.Compare) and len(t.ops) == 1 and isinstance(t.ops[0], ast.In)
+                not_none = isinstance(t, ast.Compare) and len(t.ops) == 1 and isinstance(t.ops[0], ast.IsNot) and isinstance(t.comparators[0], ast.Constant) and t.comparators[0].value is None
+                if (membership or not_none) and not (names & value_params):
+                    good = y
+                elif names & value_params:
+                    good = good or False
+        ok = bool(good)
+        res.inst(m.fq, "a repeated attribute key on one atom raises, independent of the value", "ok" if ok else "fail")
+        if not ok:
+            why = "the duplicate test depends on the value: the same key with the same value is accepted twice" if good is False else "no test for an already present key"
+            res.fail(Finding("R-DUPATTR", m.module.rel, m.qualname, "duplicate attribute check", f"{why}; a string that sets an attribute twice on one atom is not rejected", line=m.node.lineno))
     return res
